@@ -246,7 +246,7 @@ fn all_offsets(step_min: i64) -> Vec<i64> {
 
 pub fn run(r: &Report) {
     r.set_rule("decision = (now instant in a zone spelling, offset string, `to` value); grid: 9 instants x 3 zone spellings x all offsets -12:00..+14:00 (quick: 15-minute steps, thorough: 1-minute steps) x {+HH:MM,+HHMM} x 25 second-resolution deltas with `to` = wall-clock rendering of now+delta at the offset; current instants with a fraction of a second (.4 .5 .6 .999999999) x deltas 0, +-1, +-2; plus malformed `to` classes x all offsets x {now = year 9000} and unparseable offsets x {expired, malformed} `to`; each decision observed through is_removal and through clean on a probe; plus monotonicity on a multi-element document over a now-grid; non-trivial = distinct decisions with |delta|<=1 or whose date at the offset differs from the UTC date, and all malformed decisions");
-    r.assume("chrono leniencies the statement does not name (second 60, unpadded fields, extra whitespace, '+09' / '+25:00' offsets) are not asserted either way");
+    r.assume("chrono leniencies the statement does not name (second 60 once the second `..:59` is over, unpadded fields, extra whitespace, '+09' / '+25:00' offsets) are not asserted either way");
     let offs = all_offsets(if r.tier == Tier::Quick { 15 } else { 1 });
     let nows: Vec<i64> = NOWS_UTC.iter().map(|s| parse_rfc3339(s).unwrap()).collect();
     // --- well-formed grid
@@ -294,6 +294,33 @@ pub fn run(r: &Report) {
         &|| r.stopped(),
     );
     r.expect_count("fractional current instants", expected, counted);
+    // --- second 60: whether `..:59:60` is unparseable or a leap second that ends one second after
+    // `..:59:59` begins, the element is not ready before that second is over (the only clause
+    // asserted for this spelling; nothing is claimed from `..:59:59` + 1 s on)
+    let before: Vec<(i64, &str)> = vec![(0, ""), (0, ".999999999"), (-1, ""), (-3600, ".5")];
+    let radices = [nows.len(), offs.len(), 2, before.len()];
+    let expected: u64 = radices.iter().map(|&x| x as u64).product();
+    let counted = explore_product(
+        &radices,
+        || r.local(),
+        |l: &mut Local, dg| {
+            // t59: an instant whose wall-clock second at the offset is 59 (offsets are whole minutes)
+            let t59 = nows[dg[0]] - nows[dg[0]].rem_euclid(60) + 59;
+            let off = offs[dg[1]];
+            let wall = render_wall(t59 + off);
+            assert!(wall.ends_with(":59"), "harness: {wall}");
+            let (delta, frac) = before[dg[3]];
+            let whole = fmt_rfc3339(t59 + delta, 0);
+            let d = Decision {
+                now: format!("{}{}{}", &whole[..19], frac, &whole[19..]),
+                off: fmt_offset(off, dg[2] == 0),
+                to: Some(Some(format!("{}60", &wall[..17]))),
+            };
+            eval(l, &d, true, "second-60-before-its-end");
+        },
+        &|| r.stopped(),
+    );
+    r.expect_count("second 60 x offsets", expected, counted);
     // --- malformed `to` x offsets, far-future now
     let far = ["9000-01-01T00:00:00Z", "2024-01-01T00:00:00+09:00"];
     let mut tos: Vec<Option<Option<String>>> = vec![None, Some(None)];
